@@ -8,8 +8,9 @@
 (***************************************************************************)
 EXTENDS TZif, CivilTime, FiniteSets
 
-TMin == I64Min
-TMax == I64Max
+\* The representable range of instants and the "big bang" sentinel instant are parameters so that
+\* small worlds can place them inside the explored window; real traces use the int64 limits and -2^59.
+CONSTANTS TMin, TMax, BigBangT
 MaxAbsOff == 90000          \* no offset of a loadable zone exceeds 25 h in magnitude
 TypeRec(off, dst, abbr) == [off |-> off, dst |-> dst, abbr |-> abbr]
 Equiv(a, b) == a.off = b.off /\ a.dst = b.dst /\ a.abbr = b.abbr
@@ -38,7 +39,7 @@ MkZone(D) ==
       dflt == DefaultType(D) + 1
       before(k) == IF k = 1 THEN types[dflt] ELSE types[ty[k - 1]]
       \* a recorded transition is a real change unless it alters nothing or is a "big bang" sentinel
-      real == TLCEval([k \in 1..D.timecnt |-> ~Equiv(before(k), types[ty[k]]) /\ WNeg(Pow2_59) \prec D.times[k]])
+      real == TLCEval([k \in 1..D.timecnt |-> ~Equiv(before(k), types[ty[k]]) /\ BigBangT \prec D.times[k]])
   IN
   [n     |-> D.timecnt,
    at    |-> D.times,
@@ -49,7 +50,7 @@ MkZone(D) ==
    rule  |-> rule,
    rt    |-> TLCEval(RuleTab(rule))]
 
-LastAt(Z) == IF Z.n = 0 THEN WNeg(Pow2_59) ELSE Z.at[Z.n]       \* rules apply strictly after this instant
+LastAt(Z) == IF Z.n = 0 THEN BigBangT ELSE Z.at[Z.n]       \* rules apply strictly after this instant
 LastType(Z) == IF Z.n = 0 THEN Z.types[Z.dflt] ELSE Z.types[Z.ty[Z.n]]
 
 \* number of recorded transitions at or before t
@@ -60,35 +61,40 @@ BS(at, t, lo, hi) == IF lo = hi THEN lo
 IdxLE(Z, t) == BS(Z.at, t, 0, Z.n)
 
 UtcYear(t) == CivilFromDays(WDiv(t, 86400))[1]
-\* The rule instants of the six years y-3 .. y+2 that lie after the recorded data, each with the
-\* type it introduces.  For any instant t (or civil second) whose UTC year is within one of y, the
-\* latest rule instant at or before t is among them (a rule fires within 8 days of its own year).
+\* The rule instants of the six years y-3 .. y+2 that lie after the recorded data, in time
+\* order, each with the type it introduces.  For any instant t (or civil second) whose UTC year is
+\* within one of y, the latest rule instant at or before t is among them (a rule fires within 8
+\* days of its own year).  `edge` says that the first element is the earliest of the twelve, i.e.
+\* its predecessor lies outside the context.  (Time order across years is part of WellFormed.)
 RECURSIVE RuleYears(_, _, _, _, _, _)
 RuleYears(Z, j0, ym, i, cum, wd) ==
-  IF i = 6 THEN {}
+  IF i = 6 THEN <<>>
   ELSE LET leap == IsLeapIdx((ym + i) % 400)
            len  == IF leap THEN 366 ELSE 365
            base == WMulSmall(j0 \oplus W(cum), 86400)
            o    == Z.rt[leap][wd]
-       IN  {[at |-> base \oplus W(o[1]), T |-> Z.rule.dstT], [at |-> base \oplus W(o[2]), T |-> Z.rule.stdT]}
-             \cup RuleYears(Z, j0, ym, i + 1, cum + len, (wd + len) % 7)
+           st   == [at |-> base \oplus W(o[1]), T |-> Z.rule.dstT]
+           en   == [at |-> base \oplus W(o[2]), T |-> Z.rule.stdT]
+       IN  (IF o[1] <= o[2] THEN <<st, en>> ELSE <<en, st>>)
+             \o RuleYears(Z, j0, ym, i + 1, cum + len, (wd + len) % 7)
+RECURSIVE CountLE(_, _, _)          \* number of leading elements of the sorted sequence with at <= t
+CountLE(sq, t, i) == IF i > Len(sq) \/ t \prec sq[i].at THEN i - 1 ELSE CountLE(sq, t, i + 1)
+NoCtx == [seq |-> <<>>, edge |-> FALSE]
 RuleCtx(Z, y) ==
-  IF Z.rule.kind # "dst" THEN {}
+  IF Z.rule.kind # "dst" THEN NoCtx
   ELSE LET y0 == y \ominus W(3)
            j0 == DaysFromCivil(y0, 1, 1)
-           la == LastAt(Z)
            all == RuleYears(Z, j0, WMod(y0, 400), 0, 0, (Weekday(j0) + 1) % 7)
-           first == CHOOSE c \in all : \A d \in all : c.at \preceq d.at
-       IN  \* edge: the earliest of the twelve, whose predecessor is outside the context
-           {[at |-> c.at, T |-> c.T, edge |-> c.at = first.at] : c \in {c \in all : la \prec c.at}}
+           k == CountLE(all, LastAt(Z), 1)
+       IN  [seq |-> SubSeq(all, k + 1, Len(all)), edge |-> k = 0]
 
 \* the type in force at t, given the rule context C of a year near t
 TypeAtC(Z, C, t) ==
-  LET v == {c \in C : c.at \preceq t} IN
-  IF v # {} THEN (CHOOSE c \in v : \A d \in v : d.at \preceq c.at).T
+  LET i == CountLE(C.seq, t, 1) IN
+  IF i > 0 THEN C.seq[i].T
   ELSE LET k == IdxLE(Z, t) IN IF k = 0 THEN Z.types[Z.dflt] ELSE Z.types[Z.ty[k]]
 NeedsCtx(Z, t) == Z.rule.kind = "dst" /\ LastAt(Z) \prec t
-CtxFor(Z, t) == IF NeedsCtx(Z, t) THEN RuleCtx(Z, UtcYear(t)) ELSE {}
+CtxFor(Z, t) == IF NeedsCtx(Z, t) THEN RuleCtx(Z, UtcYear(t)) ELSE NoCtx
 TypeAt(Z, t) == TypeAtC(Z, CtxFor(Z, t), t)
 OffAt(Z, t) == TypeAt(Z, t).off
 
@@ -98,7 +104,7 @@ BreakC(Z, C, t) == LET T == TypeAtC(Z, C, t) IN
 Break(Z, t) == BreakC(Z, CtxFor(Z, t), t)
 
 \* ---- C02: civil -> instant ----
-Clamp(t) == ClampI64(t)
+Clamp(t) == IF t \prec TMin THEN TMin ELSE IF TMax \prec t THEN TMax ELSE t
 Make(Z, cs) ==
   LET s    == SecondsOf(cs)
       C    == CtxFor(Z, s \oplus W(MaxAbsOff))
@@ -106,7 +112,8 @@ Make(Z, cs) ==
       hi   == IdxLE(Z, s \oplus W(MaxAbsOff))
       \* the offset changes (instants) that could be responsible for the civil second s
       ch   == {Z.at[k] : k \in (lo + 1)..hi} \cup
-              {c.at : c \in {c \in C : (s \ominus W(MaxAbsOff + 1)) \prec c.at /\ c.at \preceq (s \oplus W(MaxAbsOff))}}
+              {C.seq[i].at : i \in {i \in 1..Len(C.seq) : (s \ominus W(MaxAbsOff + 1)) \prec C.seq[i].at
+                                                             /\ C.seq[i].at \preceq (s \oplus W(MaxAbsOff))}}
       Off(t) == TypeAtC(Z, C, t).off
       jumps == {[at |-> c, ob |-> Off(c \ominus W(1)), oa |-> Off(c)] : c \in ch}
       offs == {Off(s \ominus W(MaxAbsOff + 1))} \cup {j.oa : j \in jumps}
@@ -139,14 +146,17 @@ NextRecorded(Z, t) == NextRealFrom(Z, IdxLE(Z, t) + 1)              \* 0 = none
 PrevRecorded(Z, t) == PrevRealFrom(Z, IdxLE(Z, t \ominus W(1)))     \* latest strictly before t
 \* rule-generated changes (only with a dst rule).  A rule instant is a real change unless it
 \* introduces the type already in force (possible for the first one after the recorded data).
-IsRealRule(Z, C, c) == ~c.edge /\ ~Equiv(TypeAtC(Z, C, c.at \ominus W(1)), c.T)
+IsRealRule(Z, C, i) ==
+  /\ ~(i = 1 /\ C.edge)
+  /\ ~Equiv(IF i > 1 THEN C.seq[i - 1].T ELSE TypeAtC(Z, NoCtx, C.seq[i].at \ominus W(1)), C.seq[i].T)
+RealRuleIdx(Z, C) == {i \in 1..Len(C.seq) : IsRealRule(Z, C, i)}
 NextRuleChange(Z, t) ==      \* earliest real rule change after max(t, LastAt)
   LET b == WMax(t, LastAt(Z))
       C == RuleCtx(Z, UtcYear(b))
-      v == {c.at : c \in {c \in C : b \prec c.at /\ IsRealRule(Z, C, c)}}
-  IN  CHOOSE c \in v : \A d \in v : c \preceq d
+      v == {i \in RealRuleIdx(Z, C) : b \prec C.seq[i].at}
+  IN  C.seq[CHOOSE i \in v : \A j \in v : i <= j].at
 RuleChangesBefore(Z, t) ==   \* the real rule changes of the years around t that lie before t
-  LET C == RuleCtx(Z, UtcYear(t)) IN {c.at : c \in {c \in C : c.at \prec t /\ IsRealRule(Z, C, c)}}
+  LET C == RuleCtx(Z, UtcYear(t)) IN {C.seq[i].at : i \in {i \in RealRuleIdx(Z, C) : C.seq[i].at \prec t}}
 
 \* ---- the premise of C02/C03/C06: changes farther apart than the sum of their sizes ----
 Abs(x) == IF x < 0 THEN -x ELSE x
